@@ -45,7 +45,27 @@ func main() {
 	noControls := flag.Bool("no-controls", false, "developer aid: skip the positive controls (quick tier)")
 	evDir := flag.String("evidence-dir", "", "developer aid: write evidence and replay files below this directory instead of <verif>/evidence")
 	debugFn := flag.String("debug-exprs", "", "developer aid: print the canonical expressions of all calls/returns in the named function (e.g. cmd:CopyCommand.copyOneFile)")
+	flag.BoolVar(&noNormalise, "no-normalise", false, "developer aid: do not expand non-inventory helpers before analysis")
+	flag.BoolVar(&dumpNormalised, "dump-normalised", false, "developer aid: print the files rewritten by the helper-expansion pass")
+	genInv := flag.Bool("gen-inventory", false, "developer aid: print the function inventory of the tree at -repo")
+	dbgScope := flag.String("debug-scope", "", "developer aid: print the cmd functions reachable from a command type")
 	flag.Parse()
+	if *dbgScope != "" {
+		debugScope(*repo, *dbgScope)
+		return
+	}
+	if *genInv {
+		noNormalise = true
+		w, err := loadWorld(LoadConfig{Dir: *repo})
+		if err != nil {
+			fmt.Fprintln(os.Stderr, err)
+			os.Exit(2)
+		}
+		for _, k := range moduleFuncDecls(w.Roots) {
+			fmt.Println(k)
+		}
+		return
+	}
 	if *debugFn != "" {
 		debugExprs(*repo, *debugFn)
 		return
@@ -119,6 +139,7 @@ func runProperty(def *propertyDef, tier, repo, verif string, seed int, writeEvid
 	if w.nPackages < 3 {
 		r.Undecided("G.load", "packages", "-", fmt.Sprintf("only %d packages loaded", w.nPackages))
 	}
+	r.Notes = append(r.Notes, w.NormNotes...)
 	ruleG0(w, r)
 	def.Run(w, r)
 
@@ -250,5 +271,21 @@ func debugExprs(repo, name string) {
 				fmt.Printf("  %s: store %s <- %s\n", w.instrPos(x), c.expr(x.Addr), c.expr(x.Val))
 			}
 		})
+	}
+}
+
+func debugScope(repo string, tn string) {
+	w, err := loadWorld(LoadConfig{Dir: repo})
+	if err != nil {
+		panic(err)
+	}
+	sc := cmdReachableFrom(w, tn)
+	var names []string
+	for f := range sc {
+		names = append(names, funcName(f))
+	}
+	sort.Strings(names)
+	for _, n := range names {
+		fmt.Println(n)
 	}
 }
